@@ -41,7 +41,6 @@ CLOSED_FORM = {"cauchy", "exponential", "weibull", "logistic", "hyperbolic_secan
 # the inverse error function / Newton iteration that stops at 0.001
 TOL = {k: 1e-6 for k in CLOSED_FORM}
 TOL.update({"normal": 1e-3, "lognormal": 1e-3, "gamma": 2.5e-3, "exponential_power": 2.5e-3})
-DISP_SIZE = 16
 MAX_MODEL_CELLS = 169
 
 # which member variable of each class receives (scale, shape) from the
@@ -108,10 +107,31 @@ def parse_q(tok):
 # --------------------------------------------------------------------------
 # generators
 # --------------------------------------------------------------------------
+DISP_SHAPES = [(16, 16), (2, 5), (2, 7), (3, 7), (3, 4), (4, 6), (6, 4), (7, 2), (5, 2), (1, 9), (9, 1), (2, 2), (1, 2), (2, 1), (3, 3)]
+
+
+def colliding_partner(rng, prev, R, C):
+    """A different cell of the R x C dispersers raster that a wrong notion of 'the same
+    cell as before' would confuse with prev: equal under r*R+c (rows used as the stride),
+    r+c, r*c, |r-c|, same row, same column, swapped coordinates."""
+    keys = [lambda r, c: r * R + c, lambda r, c: r + c, lambda r, c: r * c, lambda r, c: abs(r - c),
+            lambda r, c: r, lambda r, c: c, lambda r, c: r * (C - 1) + c, lambda r, c: r * (C + 1) + c]
+    rng.shuffle(keys)
+    cands = [(prev[1], prev[0])] if prev[1] < R and prev[0] < C and prev[0] != prev[1] and rng.random() < 0.2 else []
+    for key in keys:
+        if cands:
+            break
+        kp = key(*prev)
+        cands = [(r, c) for r in range(R) for c in range(C) if (r, c) != prev and key(r, c) == kp]
+    return rng.choice(cands) if cands else None
+
+
 def gen_batches(rng, style, nchoices):
     """style: 'distinct' sources, 'repeat' (the same cell again), 'midway' (n changes
-    before the batch is complete)."""
+    before the batch is complete).  The source cells also fix the shape of the dispersers
+    raster (harness: smallest raster containing them), drawn from DISP_SHAPES."""
     nb = rng.randint(1, 5)
+    R, C = rng.choice(DISP_SHAPES)
     out = []
     prev = None
     for b in range(nb):
@@ -119,10 +139,11 @@ def gen_batches(rng, style, nchoices):
         if style == "repeat" and prev is not None and rng.random() < 0.6:
             cell = prev
         else:
-            while True:
-                cell = (rng.randint(0, DISP_SIZE - 1), rng.randint(0, DISP_SIZE - 1))
-                if cell != prev:
-                    break
+            cell = colliding_partner(rng, prev, R, C) if prev is not None and rng.random() < 0.6 else None
+            while cell is None:
+                cell = (rng.randint(0, R - 1), rng.randint(0, C - 1))
+                if cell == prev:
+                    cell = None
         ln = n
         if style == "midway" and rng.random() < 0.5:
             ln = rng.choice([max(1, n // 2), n - 1 if n > 1 else 1, n + 1, n + rng.randint(1, 3)])
@@ -131,6 +152,10 @@ def gen_batches(rng, style, nchoices):
         if style == "midway" and rng.random() < 0.5:
             n2 = rng.choice(nchoices)
             out.append((cell[0], cell[1], n2, rng.choice([n2, max(1, n2 // 2)])))
+    # pin the shape: the last source is the bottom-right corner unless it was visited
+    if not any(b[0] == R - 1 for b in out) or not any(b[1] == C - 1 for b in out):
+        if prev != (R - 1, C - 1):
+            out.append((R - 1, C - 1, 1, 1))
     return out
 
 
